@@ -54,7 +54,7 @@ func updPath(r *gen.R, malformed bool) string {
 			p += "." + gen.Keys[r.N(len(gen.Keys))]
 		}
 	} else if r.P(8) {
-		p = gen.Keys[r.N(len(gen.Keys))] + ".$[i]"
+		p = gen.Keys[r.N(len(gen.Keys))] + ".$[" + filterID(r) + "]"
 		if r.P(40) {
 			p += "." + gen.Keys[r.N(len(gen.Keys))]
 		}
@@ -227,23 +227,263 @@ func Update(r *gen.R, malformed bool) bson.D {
 	return u
 }
 
-func arrayFilters(r *gen.R, malformed bool) bsonkit.List {
-	var l bsonkit.List
-	n := r.N(3)
-	for i := 0; i < n; i++ {
-		id := []string{"i", "i", "j"}[r.N(3)]
-		var d bson.D
-		switch r.N(3) {
-		case 0:
-			d = bson.D{{Key: id, Value: r.Scalar()}}
-		case 1:
-			d = bson.D{{Key: id, Value: opDoc(r, 1, malformed)}}
-		default:
-			d = bson.D{{Key: id + "." + gen.Keys[r.N(len(gen.Keys))], Value: r.Scalar()}}
+// filterIDs: identifiers of array filters; some are string prefixes of others ("i"/"i2", "elem"/"elem2").
+var filterIDs = []string{"i", "j", "i2", "elem", "elem2"}
+
+func filterID(r *gen.R) string {
+	if r.P(40) {
+		return "i"
+	}
+	return filterIDs[r.N(len(filterIDs))]
+}
+
+var identRe = regexp.MustCompile(`\$\[([^\].]+)\]`)
+
+// one array filter for the identifier; a third of the conditions hold for a missing field ($ne, null, $exists:false, $nin)
+func arrayFilter(r *gen.R, id string, malformed bool) *bson.D {
+	key := id
+	if r.P(30) {
+		key = id + "." + gen.Keys[r.N(len(gen.Keys))]
+	}
+	var cond interface{}
+	switch r.N(7) {
+	case 0, 1:
+		cond = r.Scalar()
+	case 2, 3:
+		cond = opDoc(r, 1, malformed)
+	case 4:
+		cond = bson.D{{Key: "$ne", Value: r.Scalar()}}
+	case 5:
+		cond = []interface{}{nil, bson.D{{Key: "$exists", Value: false}}}[r.N(2)]
+	default:
+		a := bson.A{}
+		for k := 0; k < r.N(3); k++ {
+			a = append(a, r.Scalar())
 		}
-		l = append(l, &d)
+		cond = bson.D{{Key: "$nin", Value: a}}
+	}
+	d := bson.D{{Key: key, Value: cond}}
+	if r.P(10) {
+		// a second key of the same identifier
+		d = append(d, bson.E{Key: id + "." + gen.Keys[r.N(len(gen.Keys))], Value: r.Scalar()})
+	}
+	return &d
+}
+
+func arrayFilters(r *gen.R, malformed bool) bsonkit.List {
+	return arrayFiltersFor(r, malformed, nil)
+}
+
+// arrayFiltersFor: 0–3 filters for random identifiers (often not used by the update) and, mostly, one or two for each
+// identifier the update uses, inserted at random positions (so that foreign filters come before and after).
+func arrayFiltersFor(r *gen.R, malformed bool, upd bson.D) bsonkit.List {
+	var l bsonkit.List
+	n := r.N(4)
+	for i := 0; i < n; i++ {
+		l = append(l, arrayFilter(r, filterID(r), malformed))
+	}
+	seen := map[string]bool{}
+	for _, e := range upd {
+		cd, _ := e.Value.(bson.D)
+		for _, cnd := range cd {
+			for _, m := range identRe.FindAllStringSubmatch(cnd.Key, -1) {
+				id := m[1]
+				if seen[id] || !r.P(80) {
+					continue
+				}
+				seen[id] = true
+				for k := 0; k < 1+r.N(2); k++ {
+					at := r.N(len(l) + 1)
+					l = append(l, nil)
+					copy(l[at+1:], l[at:])
+					l[at] = arrayFilter(r, id, malformed)
+				}
+			}
+		}
 	}
 	return l
+}
+
+var oraclePathRe = regexp.MustCompile(`^([^.$]+)\.\$\[([^\].$]+)\](?:\.([^.$]+))?$`)
+
+// arrayFilterOracle computes, independently of mongokit's resolver, the result of an update consisting of one $set / $inc /
+// $unset with one path `f.$[id]` or `f.$[id].g` on a top-level array f: element k is selected iff it satisfies one of the
+// array filters that bind id (a key equal to id or starting with id + "."), evaluated with the query matcher on the wrapper
+// {id: element}. Not applicable (ok = false) when an evaluation errors or the element shape is outside the simple cases.
+func arrayFilterOracle(doc, upd bson.D, filters bsonkit.List) (want bson.D, wantErr bool, ok bool) {
+	if len(upd) != 1 {
+		return nil, false, false
+	}
+	op := upd[0].Key
+	cd, isDoc := upd[0].Value.(bson.D)
+	if !isDoc || len(cd) != 1 || (op != "$set" && op != "$inc" && op != "$unset") {
+		return nil, false, false
+	}
+	m := oraclePathRe.FindStringSubmatch(cd[0].Key)
+	if m == nil {
+		return nil, false, false
+	}
+	f, id, g, arg := m[1], m[2], m[3], cd[0].Value
+	at := -1
+	for i, e := range doc {
+		if e.Key == f {
+			if at >= 0 {
+				return nil, false, false
+			}
+			at = i
+		}
+	}
+	if at < 0 {
+		return nil, false, false
+	}
+	arr, isArr := doc[at].Value.(bson.A)
+	if !isArr {
+		return nil, false, false
+	}
+	var own bsonkit.List
+	for _, fl := range filters {
+		for _, e := range *fl {
+			if e.Key == id || strings.HasPrefix(e.Key, id+".") {
+				own = append(own, fl)
+				break
+			}
+		}
+	}
+	if len(own) == 0 {
+		return nil, true, true
+	}
+	res := make(bson.A, len(arr))
+	copy(res, arr)
+	for k, el := range arr {
+		selected := false
+		for _, fl := range own {
+			matched, err := mongokit.Match(&bson.D{{Key: id, Value: el}}, fl)
+			if err != nil {
+				return nil, false, false
+			}
+			selected = selected || matched
+		}
+		if !selected {
+			continue
+		}
+		if g == "" {
+			switch op {
+			case "$set":
+				res[k] = arg
+			case "$unset":
+				res[k] = nil
+			case "$inc":
+				v, reject, known := intPromotion(el, arg, false)
+				if !known {
+					return nil, false, false
+				}
+				if reject {
+					return nil, true, true
+				}
+				res[k] = v
+			}
+			continue
+		}
+		ed, isD := el.(bson.D)
+		if !isD {
+			return nil, false, false
+		}
+		gi := -1
+		for i, e := range ed {
+			if e.Key == g {
+				if gi >= 0 {
+					return nil, false, false
+				}
+				gi = i
+			}
+		}
+		nd := make(bson.D, len(ed))
+		copy(nd, ed)
+		switch op {
+		case "$set":
+			if gi >= 0 {
+				nd[gi].Value = arg
+			} else {
+				nd = append(nd, bson.E{Key: g, Value: arg})
+			}
+		case "$unset":
+			if gi >= 0 {
+				nd = append(nd[:gi], nd[gi+1:]...)
+			}
+		case "$inc":
+			if gi < 0 {
+				if _, _, known := intPromotion(int32(0), arg, false); !known {
+					return nil, false, false
+				}
+				nd = append(nd, bson.E{Key: g, Value: arg})
+			} else {
+				v, reject, known := intPromotion(ed[gi].Value, arg, false)
+				if !known {
+					return nil, false, false
+				}
+				if reject {
+					return nil, true, true
+				}
+				nd[gi].Value = v
+			}
+		}
+		res[k] = nd
+	}
+	want = make(bson.D, len(doc))
+	copy(want, doc)
+	want[at].Value = res
+	return want, false, true
+}
+
+// oracleCase builds a case of the shape the array-filter oracle covers.
+func oracleCase(r *gen.R, doc bson.D) (bson.D, bson.D) {
+	f := gen.Keys[r.N(len(gen.Keys))]
+	g := ""
+	if r.P(45) {
+		g = gen.Keys[r.N(len(gen.Keys))]
+	}
+	arr := bson.A{}
+	for k := 0; k < 1+r.N(5); k++ {
+		switch {
+		case g != "" && r.P(85):
+			d := bson.D{}
+			for _, key := range gen.Keys {
+				if r.P(45) {
+					d = append(d, bson.E{Key: key, Value: r.SmallNumber()})
+				}
+			}
+			arr = append(arr, d)
+		case r.P(75):
+			arr = append(arr, r.SmallNumber())
+		default:
+			arr = append(arr, r.Scalar())
+		}
+	}
+	nd := bson.D{}
+	for _, e := range doc {
+		if e.Key != f {
+			nd = append(nd, e)
+		}
+	}
+	nd = append(nd, bson.E{})
+	at := r.N(len(nd))
+	copy(nd[at+1:], nd[at:])
+	nd[at] = bson.E{Key: f, Value: arr}
+	op := []string{"$set", "$inc", "$unset"}[r.N(3)]
+	path := f + ".$[" + filterID(r) + "]"
+	if g != "" {
+		path += "." + g
+	}
+	var arg interface{}
+	switch op {
+	case "$set":
+		arg = r.Value(1, false)
+	case "$inc":
+		arg = []interface{}{int32(1), int32(-2), int64(3), int32(math.MaxInt32), int64(math.MaxInt64)}[r.N(5)]
+	default:
+		arg = ""
+	}
+	return nd, bson.D{{Key: op, Value: bson.D{{Key: path, Value: arg}}}}
 }
 
 type applyOut struct {
@@ -385,8 +625,8 @@ func positionalClash(a, b string) bool {
 func init() {
 	run.Register(&run.Stream{
 		Name: "apply",
-		Rule: "documents (depth ≤3, arrays incl. nested) × update documents of 1–3 operators (dotted, indexed, $[] and $[id] paths; all numeric pairs incl. 2^31/2^53/2^63 boundaries; $each/$position/$sort/$slice incl. extreme integers; 20% malformed) × array-filter lists; " +
-			"monitors: idempotence of $set/$unset/$min/$max/$addToSet/$pull/$pullAll, integer promotion oracle for $inc/$mul, untouched top-level fields keep value and order, recorded changes hold in the result; non-trivial = distinct case whose update succeeded and changed the document",
+		Rule: "documents (depth ≤3, arrays incl. nested) × update documents of 1–3 operators (dotted, indexed, $[] and $[id] paths; all numeric pairs incl. 2^31/2^53/2^63 boundaries; $each/$position/$sort/$slice incl. extreme integers; 20% malformed) × array-filter lists (identifiers i/j/i2/elem/elem2, own and foreign filters, conditions that hold for a missing field); " +
+			"monitors: idempotence of $set/$unset/$min/$max/$addToSet/$pull/$pullAll, integer promotion oracle for $inc/$mul, untouched top-level fields keep value and order, recorded changes hold in the result, array-filter oracle for single $set/$inc/$unset on f.$[id](.g); non-trivial = distinct case whose update succeeded and changed the document",
 		Gen: func(r *gen.R, idx int) []run.Case {
 			start := time.Now()
 			malformed := r.P(20)
@@ -403,8 +643,11 @@ func init() {
 					}
 				}
 			}
+			if !malformed && r.P(10) {
+				doc, upd = oracleCase(r, doc)
+			}
 			upsert := r.P(30)
-			filters := arrayFilters(r, malformed)
+			filters := arrayFiltersFor(r, malformed, upd)
 			fl := "["
 			for i, f := range filters {
 				if i > 0 {
@@ -450,6 +693,20 @@ func init() {
 					w = "apply-panic:index"
 				}
 				add("C20", "mongokit.Apply panics: "+out.panicv, w, "")
+			}
+			// $[identifier] selects exactly the elements that satisfy one of the identifier's own array filters (independent oracle)
+			if !malformed && out.panicv == "" {
+				if want, wantErr, ok := arrayFilterOracle(doc, upd, filters); ok {
+					c.Tags = append(c.Tags, "arrayfilter-oracle")
+					switch {
+					case wantErr && !out.err:
+						add("C11", "an update that must be rejected (no array filter binds the identifier / integer overflow) is accepted", "arrayfilter-oracle", vj.Enc(out.doc))
+					case !wantErr && out.err:
+						add("C11", "an update on the elements selected by the identifier's array filters is rejected", "arrayfilter-oracle", "want "+vj.Enc(want))
+					case !wantErr && vj.Enc(want) != vj.Enc(out.doc):
+						add("C11", "$[identifier] did not select exactly the elements satisfying the identifier's own array filters", "arrayfilter-oracle", "want "+vj.Enc(want)+" got "+vj.Enc(out.doc))
+					}
+				}
 			}
 			// literal update paths and whether two of them conflict as MongoDB defines it: equal or prefix-related, or — at the
 			// first component where they differ — a positional component ($, $[], $[id]) against a field name / index
